@@ -80,3 +80,51 @@ pub broadcast proof fn lemma_wf_v0_b<Output: BinaryOutput>(o: &AdtSerializer<Out
 {
     lemma_wf_v0(o, a, name, e, t2);
 }
+
+/// summary of one write_field on a chunked (evolved) serializer
+pub proof fn lemma_wf_chunked<Output: BinaryOutput>(o: &AdtSerializer<Output>, a: &AdtSerializer<Output>, name: Seq<char>, e: Seq<u8>, t2: Tbl)
+    requires
+        wf_post(o, a, name, e, t2),
+        !o.headerless(),
+    ensures
+        a.aswf(),
+        a.metadata == o.metadata,
+        a.buffers@.len() == o.buffers@.len(),
+        swrote(o.ctx(), a.ctx(), Seq::<u8>::empty(), t2),
+        ({
+            let ch = o.metadata.chunk_of(name) as int;
+            &&& a.chunk(ch) =~= o.chunk(ch) + e
+            &&& forall|i: int| 0 <= i < o.buffers@.len() && i != ch ==> #[trigger] a.chunk(i) == o.chunk(i)
+            &&& a.field_indices@ == o.field_indices@.insert(name, FieldPosition { chunk: ch as u8, position: o.next_index(ch) })
+            &&& a.last_index_per_chunk@ == o.last_index_per_chunk@.insert(ch, o.next_index(ch))
+        }),
+{
+    reveal(wf_post);
+}
+
+/// what every read_field / read_optional_field preserves (enough for the next read's precondition)
+pub broadcast proof fn lemma_rf_any<T: BinaryDeserializer>(o: &AdtDeserializer, a: &AdtDeserializer, name: Seq<char>, d: Option<T>, r: Result<T>)
+    requires
+        #[trigger] rf_post::<T>(o, a, name, d, r),
+        o.adwf(),
+        o.last_index_per_chunk@[o.metadata.chunk_of(name) as int] < 127,
+    ensures
+        r is Ok ==> a.adwf() && a.metadata == o.metadata
+            && a.last_index_per_chunk@.len() == o.last_index_per_chunk@.len()
+            && (forall|c: int| 0 <= c < o.last_index_per_chunk@.len() ==> #[trigger] a.last_index_per_chunk@[c] <= o.last_index_per_chunk@[c] + 1),
+{
+    reveal(rf_post);
+}
+
+pub broadcast proof fn lemma_rof_any<T: BinaryDeserializer>(o: &AdtDeserializer, a: &AdtDeserializer, name: Seq<char>, d: Option<Option<T>>, r: Result<Option<T>>)
+    requires
+        #[trigger] rof_post::<T>(o, a, name, d, r),
+        o.adwf(),
+        o.last_index_per_chunk@[o.metadata.chunk_of(name) as int] < 127,
+    ensures
+        r is Ok ==> a.adwf() && a.metadata == o.metadata
+            && a.last_index_per_chunk@.len() == o.last_index_per_chunk@.len()
+            && (forall|c: int| 0 <= c < o.last_index_per_chunk@.len() ==> #[trigger] a.last_index_per_chunk@[c] <= o.last_index_per_chunk@[c] + 1),
+{
+    reveal(rof_post);
+}
